@@ -5,6 +5,12 @@ Regenerates Lean definitions (namespace Hb.Gen) of hashbrown's pure integer/bit 
 from the *current* Rust source text.
 
 usage: python3-vt rust2lean.py --repo /repo --out /verif/lean/Hb/Gen/Pure.lean [--list] [--check]
+                              [--out-api .../Api.lean] [--out-api-json .../api_items.json] [--no-api]
+                              [--snapshot-geneq-api .../GenEqApi.lean]
+
+Besides Pure.lean the run writes the call-shape tie of the API layer (kinds `calls`, `impls`, `inventory`;
+rs_api.py / rs_calls.py): `Api.lean` and `api_items.json` NEXT TO the file given by --out (override with
+--out-api / --out-api-json, suppress with --no-api).
 
 Anything in a translated body that is outside the accepted subset is a hard error
 (exit status 2, message naming the function and the offending token).
@@ -17,6 +23,7 @@ sys.path.insert(0, os.path.dirname(os.path.abspath(__file__)))
 from rs_lex import TranslateError, tokenize, scan_items, join, Tok  # noqa: E402
 from rs_parse import parse_body, parse_params, parse_type_toks, parse_expr_toks  # noqa: E402
 from rs_trans import FileCfg, World, FnTranslator, CTX_ORDER, CTX_LEAN, lean_decl_name, lean_ident, I  # noqa: E402
+from rs_api import ApiGenerator  # noqa: E402
 
 # ----------------------------------------------------------------------------------------
 # Configuration: which files, how names in them resolve, which items to translate.
@@ -54,8 +61,52 @@ FILES = [
             bv_types=["BitMaskWord", "u16"], bv_width="16"),
 ]
 
+# Call-shape tie of the API layer (T1_NOTES.md, "Call-shape tie"): (key, file, Lean name prefix).  For each file
+# EVERY function with a body outside the test modules (`mod test*`), also the ones nested in function bodies,
+# gets a `calls` item, every type with an `impl` block an `impls` item, the file an `inventory` item
+# (`<Prefix>.items`).  Output: Hb/Gen/Api.lean (namespace Hb.Gen.Api) + Hb/Gen/api_items.json; the expected
+# values are the literal lists of Hb/Proofs/GenEqApi.lean.
+API_FILES = [
+    ("map", "src/map.rs", "Map"),
+    ("set", "src/set.rs", "Set"),
+    ("table", "src/table.rs", "Table"),
+    ("raw_entry", "src/raw_entry.rs", "RawEntry"),
+    ("rustc_entry", "src/rustc_entry.rs", "RustcEntry"),
+    ("serde", "src/external_trait_impls/serde.rs", "Serde"),
+    ("rayon_helpers", "src/external_trait_impls/rayon/helpers.rs", "RayonHelpers"),
+    ("rayon_map", "src/external_trait_impls/rayon/map.rs", "RayonMap"),
+    ("rayon_raw", "src/external_trait_impls/rayon/raw.rs", "RayonRaw"),
+    ("rayon_set", "src/external_trait_impls/rayon/set.rs", "RayonSet"),
+    ("rayon_table", "src/external_trait_impls/rayon/table.rs", "RayonTable"),
+]
+
 IMPL = lambda name, trait=None: ("impl", name, trait)  # noqa: E731
 MOD = lambda name: ("mod", name, None)                # noqa: E731
+
+# Explicit `calls` / `impls` specs for a file that is NOT covered wholesale: the engines of src/raw/mod.rs the API
+# layer funnels into (iterators behind `Drain` / `IntoIter` / `ExtractIf`, the entry / get_many primitives).  Located like
+# the items of SPECS: innermost scope + fn name, exactly one definition with a body.
+API_SPEC_FILES = [("rawapi", "src/raw/mod.rs", "Raw")]
+_RT = ["erase", "remove", "remove_entry", "clear", "insert", "insert_entry", "replace_bucket_with",
+       "find_or_find_insert_slot", "insert_in_slot", "find", "get", "get_mut", "get_many_mut",
+       "get_many_unchecked_mut", "get_many_mut_buckets", "drain", "drain_iter_from"]
+API_SPECS = (
+    [dict(kind="calls", file="rawapi", scope=IMPL("RawTable"), fn=f) for f in _RT]
+    + [dict(kind="calls", file="rawapi", scope=IMPL("RawIter"), fn="drop_elements"),
+       dict(kind="calls", file="rawapi", scope=IMPL("RawIter", "Iterator"), fn="next"),
+       dict(kind="calls", file="rawapi", scope=IMPL("RawIter", "Iterator"), fn="size_hint"),
+       dict(kind="calls", file="rawapi", scope=IMPL("RawIter", "Iterator"), fn="fold"),
+       dict(kind="calls", file="rawapi", scope=IMPL("RawIntoIter", "Iterator"), fn="next"),
+       dict(kind="calls", file="rawapi", scope=IMPL("RawIntoIter", "Iterator"), fn="size_hint"),
+       dict(kind="calls", file="rawapi", scope=IMPL("RawDrain", "Iterator"), fn="next"),
+       dict(kind="calls", file="rawapi", scope=IMPL("RawDrain", "Iterator"), fn="size_hint"),
+       dict(kind="calls", file="rawapi", scope=IMPL("RawDrain", "Drop"), fn="drop"),
+       dict(kind="calls", file="rawapi", scope=IMPL("RawExtractIf"), fn="next"),
+       dict(kind="impls", file="rawapi", type="RawIter"),
+       dict(kind="impls", file="rawapi", type="RawIntoIter"),
+       dict(kind="impls", file="rawapi", type="RawDrain"),
+       dict(kind="impls", file="rawapi", type="RawExtractIf")]
+)
 
 # abstractions of the pointer specs: the control-byte pointer of the table, the two pointers of a `RawIterRange`
 PTR_INNER = [("self.ctrl", "ctrl", ("ptr", "u8"))]
@@ -885,28 +936,52 @@ def main():
     ap.add_argument("--out", required=True)
     ap.add_argument("--list", action="store_true", help="print the generated declaration names")
     ap.add_argument("--check", action="store_true",
-                    help="do not write; exit 1 if the file at --out differs from what would be generated")
+                    help="do not write; exit 1 if the files at --out / --out-api differ from what would be generated")
+    ap.add_argument("--out-api", help="call-shape tie output (default: Api.lean next to --out)")
+    ap.add_argument("--out-api-json", help="item -> source map (default: api_items.json next to --out)")
+    ap.add_argument("--no-api", action="store_true", help="do not generate the call-shape tie of the API layer")
+    ap.add_argument("--snapshot-geneq-api", metavar="PATH",
+                    help="additionally write a fresh Hb/Proofs/GenEqApi.lean whose expected lists are the lists "
+                         "of THIS tree (only for re-recording the snapshot of an accepted tree)")
     a = ap.parse_args()
+    outdir = os.path.dirname(os.path.abspath(a.out))
+    out_api = a.out_api or os.path.join(outdir, "Api.lean")
+    out_json = a.out_api_json or os.path.join(outdir, "api_items.json")
     try:
         g = Generator(a.repo)
         text = g.run()
+        outputs = [(a.out, text)]
+        api = None
+        if not a.no_api:
+            api = ApiGenerator(a.repo, API_FILES + API_SPEC_FILES)
+            api.run(API_SPECS)
+            outputs += [(out_api, api.lean_text()), (out_json, api.json_text())]
     except TranslateError as ex:
         sys.stderr.write("rust2lean: TRANSLATION ERROR: %s\n" % ex)
         sys.exit(2)
     if a.check:
-        try:
-            cur = open(a.out, encoding="utf-8").read()
-        except OSError:
-            cur = None
-        if cur != text:
-            sys.stderr.write("rust2lean: %s is out of date with respect to %s\n" % (a.out, a.repo))
-            sys.exit(1)
-        sys.exit(0)
-    os.makedirs(os.path.dirname(os.path.abspath(a.out)), exist_ok=True)
-    with open(a.out, "w", encoding="utf-8") as fh:
-        fh.write(text)
+        stale = False
+        for (path, txt) in outputs:
+            try:
+                cur = open(path, encoding="utf-8").read()
+            except OSError:
+                cur = None
+            if cur != txt:
+                sys.stderr.write("rust2lean: %s is out of date with respect to %s\n" % (path, a.repo))
+                stale = True
+        sys.exit(1 if stale else 0)
+    for (path, txt) in outputs:
+        os.makedirs(os.path.dirname(os.path.abspath(path)), exist_ok=True)
+        with open(path, "w", encoding="utf-8") as fh:
+            fh.write(txt)
+    if a.snapshot_geneq_api and api is not None:
+        from api_model_map import geneq_api_text
+        with open(a.snapshot_geneq_api, "w", encoding="utf-8") as fh:
+            fh.write(geneq_api_text(api))
     if a.list:
         print("\n".join(g.summary))
+        if api is not None:
+            print("\n".join("def Api." + d[0] for d in api.defs))
     sys.exit(0)
 
 
